@@ -24,8 +24,9 @@ func init() {
 			"captures are Clone(), Cursor() and MakeRoot()+kept Root only; a struct copy of a Mast is not a capture and is never made",
 			"store double is healthy",
 		},
-		MinObs: map[string]int64{"captures_checked": 5000, "root_reopened_cached": 200, "cursor_walks": 100, "mutations_after_capture": 500},
-		Run:    runC02,
+		MinObs:  map[string]int64{"captures_checked": 5000, "root_reopened_cached": 200, "cursor_walks": 100, "mutations_after_capture": 500},
+		Run:     runC02,
+		EvalObs: []string{"captures_checked"},
 	})
 }
 
